@@ -56,7 +56,13 @@ pub struct Case {
     /// 0 exact fit before every call (forces reallocation), 1 large reserve, 2 alternate
     pub policy: u8,
     pub calls: Vec<Call>,
+    /// when non-zero the buffer starts as this many zero bytes (a column that has already grown to 256 MiB / 4 GiB:
+    /// where a 28-bit length or a 32-bit index first goes wrong); `prefill` is then ignored
+    pub prefill_zeros: u64,
 }
+
+/// Only one worker at a time materialises a multi-GiB buffer.
+static HUGE_LOCK: std::sync::Mutex<()> = std::sync::Mutex::new(());
 
 pub struct Batch;
 
@@ -80,6 +86,93 @@ impl Batch {
             })
             .collect()
     }
+}
+
+/// The same oracle for a buffer that starts as `prefill_zeros` zero bytes, without ever copying the prefix:
+/// the prefix must still be all zero after every call, the bytes appended so far are snapshotted as usual.
+fn exec_huge(case: &Case, stats: &mut Stats) -> RunOut<Case> {
+    let _guard = HUGE_LOCK.lock().unwrap_or_else(|e| e.into_inner());
+    let n = case.prefill_zeros as usize;
+    let mut digest = Fnv::new();
+    let mut violations: Vec<(Viol, Option<Case>)> = vec![];
+    let mut data: Vec<u8> = vec![0u8; n];
+    data.reserve(1 << 20);
+    let mut offsets: Vec<u64> = case.prefill_offsets.clone();
+    let bin: Vec<Vec<u8>> = case.regs.iter().map(mval::encode).collect();
+    stats.inc(if n >= (1usize << 32) - 64 { "probe/prior_buffer_4gib" } else { "probe/prior_buffer_256mib" });
+    for (ci, call) in case.calls.iter().enumerate() {
+        let name = call.op.name();
+        let args = if call.text_regs.is_empty() { bin.clone() } else { Batch::args_for(case, call) };
+        let tail_before: Vec<u8> = data[n..].to_vec();
+        let before_len = data.len();
+        let before_off = offsets.clone();
+        stats.steps += 1;
+        stats.inc2("calls_huge_prior", name);
+        let out = guard(|| ops::call(&call.op, &args, &case.regs, &mut data, &mut offsets));
+        let mut fresh = Vec::new();
+        let mut fresh_off = Vec::new();
+        let out2 = guard(|| ops::call(&call.op, &args, &case.regs, &mut fresh, &mut fresh_off));
+        let (out, out2) = match (out, out2) {
+            (Err(p), _) | (_, Err(p)) => {
+                violations.push((Viol { class: format!("panic:{name}:{}", p.loc), detail: format!("call {ci} ({name}) with a {n}-byte prior buffer panicked at {}: {}", p.loc, p.msg) }, None));
+                break;
+            }
+            (Ok(a), Ok(b)) => (a, b),
+        };
+        digest.bytes(data.get(n..).unwrap_or(&[]));
+        digest.str(&format!("{:?}", out));
+        let prefix_ok = data.len() >= before_len && data[..n].iter().all(|b| *b == 0) && data[n..before_len] == tail_before[..];
+        if !prefix_ok {
+            let at = data.iter().take(n.min(data.len())).position(|b| *b != 0);
+            violations.push((
+                Viol {
+                    class: format!("prior_bytes_modified:{name}"),
+                    detail: format!("call {ci} ({name}) changed the {before_len} bytes that were already in the buffer (first changed position: {:?}; buffer is now {} bytes)", at, data.len()),
+                },
+                None,
+            ));
+            break;
+        }
+        if offsets.len() < before_off.len() || offsets[..before_off.len()] != before_off[..] {
+            violations.push((Viol { class: format!("prior_offsets_modified:{name}"), detail: format!("call {ci} ({name}) changed offsets that were already there") }, None));
+            break;
+        }
+        if out != out2 {
+            violations.push((
+                Viol { class: format!("outcome_depends_on_prior:{name}"), detail: format!("call {ci} ({name}) returned {:?} on a buffer of {before_len} bytes but {:?} on an empty one", out, out2) },
+                None,
+            ));
+            break;
+        }
+        match &out {
+            LibOut::Wrote(Ok(())) => {
+                if data[before_len..] != fresh[..] {
+                    violations.push((
+                        Viol { class: format!("appended_differs:{name}"), detail: format!("call {ci} ({name}) appended {} bytes after {before_len} prior bytes; the same call writes {} bytes into an empty buffer and they differ", data.len() - before_len, fresh.len()) },
+                        None,
+                    ));
+                    break;
+                }
+                let want: Vec<u64> = fresh_off.iter().map(|o| o + before_len as u64).collect();
+                if offsets[before_off.len()..] != want[..] {
+                    violations.push((
+                        Viol { class: format!("offsets_not_buffer_positions:{name}"), detail: format!("call {ci} ({name}) reported offsets {:?}; expected {:?}", &offsets[before_off.len()..], want) },
+                        None,
+                    ));
+                    break;
+                }
+            }
+            LibOut::Wrote(Err(e)) => {
+                if call.expect_err && (data.len() != before_len || offsets != before_off) {
+                    violations.push((Viol { class: format!("error_after_write:{name}:{e}"), detail: format!("call {ci} ({name}) returned {e} for a documented reason but left new bytes in the buffer") }, None));
+                    break;
+                }
+            }
+            LibOut::Returned(_) => unreachable!(),
+        }
+    }
+    stats.sample(8, || json!({"prior_buffer_zero_bytes": n, "calls": case.calls.iter().map(|c| c.op.name()).collect::<Vec<_>>()}));
+    RunOut { digest: digest.finish(), violations }
 }
 
 impl Scenario for Batch {
@@ -154,10 +247,27 @@ impl Scenario for Batch {
             };
             calls.push(Call { op, text_regs, expect_err, bad_item });
         }
-        Case { regs, styles, prefill, prefill_offsets, policy, calls }
+        // a few batches per tier run against a buffer that has already grown past 2^28 resp. 2^32 bytes
+        let prefill_zeros = if run % 100_000 == 7 {
+            (1u64 << 28) - 16 + r.below(64)
+        } else if run % 200_000 == 11 {
+            (1u64 << 32) - 16 + r.below(64)
+        } else {
+            0
+        };
+        if prefill_zeros > 0 {
+            calls.truncate(3);
+            for c in calls.iter_mut() {
+                c.bad_item = None;
+            }
+        }
+        Case { regs, styles, prefill, prefill_offsets, policy, calls, prefill_zeros }
     }
 
     fn exec(&self, case: &Case, stats: &mut Stats) -> RunOut<Case> {
+        if case.prefill_zeros > 0 {
+            return exec_huge(case, stats);
+        }
         let mut digest = Fnv::new();
         let mut violations: Vec<(Viol, Option<Case>)> = vec![];
         let mut data = case.prefill.clone();
@@ -418,6 +528,7 @@ impl Scenario for Batch {
             "prefill_hex": mval::hex(&case.prefill),
             "prefill_offsets": case.prefill_offsets,
             "capacity_policy": case.policy,
+            "prefill_zero_bytes": case.prefill_zeros,
             "calls": case.calls.iter().map(|c| json!({"call": c.op.to_json(), "text_regs": c.text_regs, "built_to_fail": c.expect_err,
                 "bad_item": c.bad_item.as_ref().map(|(p, b)| json!({"pos": p, "hex": mval::hex(b)}))})).collect::<Vec<_>>(),
         })
@@ -450,6 +561,7 @@ impl Scenario for Batch {
             prefill_offsets: j["prefill_offsets"].as_array().map(|a| a.iter().filter_map(|x| x.as_u64()).collect()).unwrap_or_default(),
             policy: j["capacity_policy"].as_u64().unwrap_or(1) as u8,
             calls,
+            prefill_zeros: j["prefill_zero_bytes"].as_u64().unwrap_or(0),
         })
     }
 
@@ -460,7 +572,7 @@ impl Scenario for Batch {
     fn rule(&self) -> String {
         "A case is a batch: 2-6 generated documents, an initial buffer content (empty / 0xAA filler / random bytes up to 512) and offsets, a capacity policy \
          (exact fit before every call, large reserve, alternating), and 1-40 calls drawn from a per-batch random subset of the buffer-writing functions, each \
-         document argument independently passed as JSONB or JSON text where the function has a text branch, a seeded fraction built to fail for a documented reason. \
+         document argument independently passed as JSONB or JSON text where the function has a text branch, a seeded fraction built to fail for a documented reason; a handful of batches per tier start from a buffer of 2^28 resp. 2^32 zero bytes (prefix checked in place). \
          Every call is executed on the shared buffer and, side by side, on an empty one. distinct_nontrivial = distinct (function, arguments) pairs, by 64-bit hash of \
          the call and its argument bytes, that were executed with a non-empty prior buffer."
             .into()
@@ -501,6 +613,7 @@ impl Scenario for Batch {
             "probe/offsets_reported",
             "probe/offsets_reported_nonempty_prior",
             "probe/invalid_item_injected",
+            "probe/prior_buffer_256mib",
         ]
     }
 }
